@@ -1,6 +1,82 @@
 /-
-  C03 — property theorems (placeholder: no theorem yet, the property is not claimed).
+  C03 — clipped / cropped / translated / colour-converted targets and the trait defaults are exact.
+
+  Property theorems only (helper lemmas live in EG/Lemmas/Adapters*.lean, Target*.lean). All
+  statements are about the models `EG.Model.Adapters`, `EG.Model.CroppedIter`, `EG.Model.Target`
+  (literal transcriptions of src/draw_target/{clipped,cropped,translated,color_converted}.rs,
+  src/iterator/contiguous.rs and the trait defaults of core/src/draw_target/mod.rs), tied to the
+  real code by the `adapters.run` correspondence stream (call log and pixel map of both recording
+  roots, reported boxes). Where `Rectangle::points` would saturate (`u32 -> i32`, `i32` overflow of
+  `top_left + size`) statements carry the explicit decidable guard `Rect.InRange`.
 -/
-import EG.Basic.Core
+import EG.Lemmas.AdaptersCroppedIter
+import EG.Lemmas.TargetRectIndex
 namespace EG.C03
+open EG EG.Rect
+
+/-! ### The cropping colour iterator -/
+
+/-- `iterator::contiguous::Cropped` (state machine with initial skip and per-row skip) yields
+exactly the colours of rows `y0 .. y0+h`, columns `x0 .. x0+w` of the row-major stream of an area
+of width `W` — for every size, crop area and stream of ANY length (a short stream is cut at the
+right place). `crop = Rectangle::new(Point::zero(), size).intersection(crop_area)`. -/
+theorem cropped_iter_toList (cs : List Color) (size : Sz) (cropArea : Rect) :
+    croppedList cs size cropArea =
+      (List.range (CropIt.cropOf size cropArea).size.h).flatMap (fun j =>
+        (cs.drop (((CropIt.cropOf size cropArea).tl.y.toNat + j) * size.w
+          + (CropIt.cropOf size cropArea).tl.x.toNat)).take (CropIt.cropOf size cropArea).size.w) :=
+  croppedList_eq_spec cs size cropArea
+
+/-! ### The trait defaults set exactly the row-major points of the area paired with the stream -/
+
+/-- Row-major numbering of `Rectangle::points()`: point number `j * w + i` is `top_left + (i, j)`. -/
+theorem points_index (r : Rect) (hr : r.InRange) (i j : Nat) (hi : i < r.size.w) (hj : j < r.size.h) :
+    r.points[j * r.size.w + i]? = some ⟨r.tl.x + i, r.tl.y + j⟩ := by
+  rw [points_eq_spec]; exact pointsSpec_getElem? hr i j hi hj
+
+example : (Rect.mk ⟨-3, 2⟩ ⟨4, 3⟩).InRange := by decide
+
+/-- Default `fill_contiguous`: the writes offered to `draw_iter` are the row-major points of the
+area zipped with the stream (any area, any stream length). -/
+theorem default_fill_contiguous_writes (B area : Rect) (cs : List Color) :
+    Call.lowerDefault B (.fillContiguous area cs) = area.points.zip cs := rfl
+
+/-- ... so the point with row-major index `k = (y - top) * w + (x - left)` ends up with colour
+number `k` of the stream if the stream is that long, and every other point keeps its content. -/
+theorem default_fill_contiguous_exact (B area : Rect) (hr : area.InRange) (cs : List Color)
+    (m : PMap) (p : Pt) :
+    m.apply (Call.lowerDefault B (.fillContiguous area cs)) p =
+      if area.contains p = true ∧ area.indexOf p < cs.length then cs[area.indexOf p]? else m p := by
+  rw [PMap.apply_eq, Call.lowerDefault_eq_lowerNative]
+  simp only [Call.lowerNative]
+  rw [lastWrite_pointsSpec_zip (Or.inr hr)]
+  by_cases hp : area.contains p = true
+  · by_cases hl : area.indexOf p < cs.length
+    · simp [hp, hl]
+    · simp [hp, hl]
+  · simp [hp]
+
+/-- Default `fill_solid` sets exactly the points of the area. -/
+theorem default_fill_solid_exact (B area : Rect) (hr : area.InRange) (c : Color) (m : PMap) (p : Pt) :
+    m.apply (Call.lowerDefault B (.fillSolid area c)) p =
+      if area.contains p = true then some c else m p := by
+  rw [PMap.apply_eq, Call.lowerDefault_eq_lowerNative]
+  simp only [Call.lowerNative]
+  rw [lastWrite_pointsSpec_const (Or.inr hr)]
+  by_cases hp : area.contains p = true <;> simp [hp]
+
+/-- Default `clear` sets exactly the points of the target's bounding box. -/
+theorem default_clear_exact (B : Rect) (hr : B.InRange) (c : Color) (m : PMap) (p : Pt) :
+    m.apply (Call.lowerDefault B (.clear c)) p = if B.contains p = true then some c else m p := by
+  rw [PMap.apply_eq, Call.lowerDefault_eq_lowerNative]
+  simp only [Call.lowerNative]
+  rw [lastWrite_pointsSpec_const (Or.inr hr)]
+  by_cases hp : B.contains p = true <;> simp [hp]
+
+/-- The defaults offer the points in row-major order, each once. -/
+theorem default_fill_order (B area : Rect) (cs : List Color) :
+    ((Call.lowerDefault B (.fillContiguous area cs)).map Prod.fst).Pairwise Pt.rowMajorLt := by
+  show ((area.points.zip cs).map Prod.fst).Pairwise Pt.rowMajorLt
+  exact (points_rowMajor area).sublist (map_fst_zip_sublist _ _)
+
 end EG.C03
